@@ -30,7 +30,7 @@ def x_cases():
 
 
 def all_cases(ctx):
-    cs = F.f_unit(5) + F.f_shape() + F.f_bb() + x_cases()
+    cs = F.f_unit(5) + F.f_shape() + F.f_bb() + x_cases() + F.reordered(F.f_shape() + F.f_bb())
     cs += F.renamed([c for c in F.f_unit(3, pairs=False)] + F.f_shape()[:4], "escaped")
     cs += F.f_rand(ctx.seed, 30 if ctx.quick else 300)
     if not ctx.quick:
